@@ -39,6 +39,9 @@ class Sim:
     number before each update, so a checkpoint's content identifies the epoch it was saved for."""
 
     ENTRIES = (("user", int, "{}"), ("uf", float, "{:.3f}"), ("us", str, "{}"))
+    # entries="note": a str entry whose values come from the specification (TrainCtl!UserStrOf: separators, quote
+    # characters, blanks, the empty string) is declared BEFORE the numeric ones; rows then carry "ustr"
+    ENTRIES_NOTE = (("note", str, "{}"),) + ENTRIES
 
     def __init__(self, workdir, p, keep_lb=True, model_fmt="model_{epoch:03d}.pt", optim_fmt="optim_{epoch:03d}.pt",
                  entries=True):
@@ -47,6 +50,7 @@ class Sim:
         self.state_dir = os.path.join(workdir, "states")
         self.params = make_params(p, keep_lb, model_fmt, optim_fmt)
         self.entries = entries
+        self.entry_list = self.ENTRIES_NOTE if entries == "note" else (self.ENTRIES if entries else ())
         self.start()
 
     def start(self):
@@ -62,27 +66,40 @@ class Sim:
         with warnings.catch_warnings():
             warnings.simplefilter("ignore")
             self.ctl = TrainingStateController(self.params, self.csv, self.state_dir, warn=False)
-            if self.entries:
-                for name, typ, fmt in self.ENTRIES:
-                    self.ctl.add_entry(name, typ, fmt)
+            for name, typ, fmt in self.entry_list:
+                self.ctl.add_entry(name, typ, fmt)
             self.ctl.load_model_and_optimizer_for_epoch(self.model, self.opt)
         return self.ctl
+
+    def load_epoch(self, epoch):
+        """roll back: put the states saved for `epoch` (0 = the initial ones) into model and optimizer"""
+        with warnings.catch_warnings():
+            warnings.simplefilter("ignore")
+            self.ctl.load_model_and_optimizer_for_epoch(self.model, self.opt, epoch)
 
     def user_kwargs(self, row):
         if not self.entries:
             return {}
         u = row["user"]
-        return dict(user=u, uf=u * 0.5, us="u%d" % u)
+        d = dict(user=u, uf=u * 0.5, us="u%d" % u)
+        if self.entries == "note":
+            d["note"] = row["ustr"]
+        return d
 
-    def update(self, row):
+    def update(self, row, epoch=None, best_is_train=False):
+        """epoch=None: the controller infers the epoch; otherwise the documented explicit `epoch` argument"""
         with torch.no_grad():
             self.model.weight.fill_(float(row["epoch"]))
             self.model.bias.fill_(float(row["epoch"]) + 0.5)
         self.opt.param_groups[0]["vf_epoch"] = row["epoch"]  # tags the optimizer checkpoint with its epoch
         with warnings.catch_warnings():
             warnings.simplefilter("ignore")
-            return self.ctl.update_for_epoch(self.model, self.opt, row["trn"] * UNIT, row["val"] * UNIT,
-                                             **self.user_kwargs(row))
+            kw = self.user_kwargs(row)
+            if epoch is not None:
+                kw["epoch"] = epoch
+            if best_is_train:
+                kw["best_is_train"] = True
+            return self.ctl.update_for_epoch(self.model, self.opt, row["trn"] * UNIT, row["val"] * UNIT, **kw)
 
     def opt_lrs(self):
         return [g["lr"] for g in self.opt.param_groups]
@@ -105,6 +122,8 @@ def row_as_csv(row, entries=True):
              rlr_patience_cd=row["rpat"], lr=FACTOR ** row["lrk"], train_met=row["trn"] * UNIT, val_met=row["val"] * UNIT)
     if entries:
         d.update(user=row["user"], uf=row["user"] * 0.5, us="u%d" % row["user"])
+    if entries == "note":
+        d["note"] = row["ustr"]
     return d
 
 
@@ -114,4 +133,6 @@ def parse_csv_line(line, entries=True):
              train_met=float(line["train_met"]), val_met=float(line["val_met"]))
     if entries:
         d.update(user=int(line["user"]), uf=float(line["uf"]), us=line["us"])
+    if entries == "note":
+        d["note"] = line["note"]
     return d
